@@ -358,7 +358,7 @@ var c11Table = []obligation{
 }
 
 func (c *Ctx) c11Decide(sites []partialSite, tb *ir.TB) {
-	c.R.Explanation = "C11: the crash-freedom half is decided structurally. R-partial = every configuration-dependent partial operation (slice/array index and slice expression not proved in bounds by constant/length guards, range loops or the symbolic range analysis; integer division by a value not proved non-zero; method invoke on the result of a map lookup or (value, ok) getter whose ok is ignored, directly or via a collection; a possibly-nil control loop handed to the controller) in the call tree of InitializeObjects, controller construction, every SpeedCurve.Evaluate and UpdateFanSpeed is either discharged locally or matched by an entry of the validator-obligation table naming the configuration field it depends on; for each entry the call tree of configuration.Validate must contain the corresponding check (len(F) <= 0, !exists(F), both-nil) on an edge from which every return carries a non-nil error, and the validator's error must reach Validate's result. A site with no local guard and no table entry is a violation (a new unguarded partial operation). R-dispatch = for fans, sensors and curves the set of backend fields the factory dispatches on equals the set the validator counts, and the validator rejects count > 1 and count <= 0. R-cycle = the validator's acyclicity verdict comes from tarjan.Connections over a graph that receives, for every function curve, an edge list built from every element of its member list; components larger than one and self references yield errors; the verdict is returned. R-gate = RunDaemon is entered only after Validate succeeded. R-cycle own-members = the edge list stored for a curve starts empty for that curve: it is not carried round the loop over the curves (extra edges from earlier curves can close a cycle the configuration does not contain, and a valid configuration is rejected). Not decided: uniqueness/acceptance semantics, correctness of the SCC library, the converse (documented forms are accepted), the binary search's interior index arithmetic."
+	c.R.Explanation = "C11: the crash-freedom half is decided structurally. R-partial = every configuration-dependent partial operation (slice/array index and slice expression not proved in bounds by constant/length guards, range loops or the symbolic range analysis; integer division by a value not proved non-zero; method invoke on the result of a map lookup or (value, ok) getter whose ok is ignored, directly or via a collection; a possibly-nil control loop handed to the controller) in the call tree of InitializeObjects, controller construction, every SpeedCurve.Evaluate and UpdateFanSpeed is either discharged locally or matched by an entry of the validator-obligation table naming the configuration field it depends on; for each entry the call tree of configuration.Validate must contain the corresponding check (len(F) <= 0, !exists(F), both-nil) on an edge from which every return carries a non-nil error, and the validator's error must reach Validate's result. A site with no local guard and no table entry is a violation (a new unguarded partial operation). R-dispatch = for fans, sensors and curves the set of backend fields the factory dispatches on equals the set the validator counts, and the validator rejects count > 1 and count <= 0. R-cycle = the validator's acyclicity verdict comes from tarjan.Connections over a graph that receives, for every function curve, an edge list built from every element of its member list; components larger than one and self references yield errors; the verdict is returned. R-gate = RunDaemon is entered only after Validate succeeded. R-cycle own-members = the edge list stored for a curve starts empty for that curve: it is not carried round the loop over the curves (extra edges from earlier curves can close a cycle the configuration does not contain, and a valid configuration is rejected). R-registry|every-entry = in the instantiation code every iteration of a loop that registers objects (a function of the registry packages reaching a concurrent-map Set) registers one or leaves the function: the validator guarantees that referenced ids are defined, the registries must then contain them. Not decided: uniqueness/acceptance semantics, correctness of the SCC library, the converse (documented forms are accepted), the binary search's interior index arithmetic."
 	c.R.Assumptions = append(c.R.Assumptions,
 		"github.com/looplab/tarjan.Connections returns the strongly connected components of the given graph (trusted library summary)",
 		"len(values) == len(curves) == len(function.curves) in FunctionSpeedCurve.Evaluate (one append per element, checked by R-members)")
